@@ -255,6 +255,13 @@ func visitInstr(fr *frame, instr ssa.Instruction) continuation {
 			panic(unsupported{"send on nil channel (blocks forever)"})
 		}
 		in.path.events = append(in.path.events, Event{Chan: ch.id, Val: fr.get(instr.X)})
+		if hook := in.path.onSend; hook != nil && !in.path.inSendHook {
+			// the consumer's reaction to what it receives, run while the producer is at the send:
+			// one legal schedule (the consumer is quick, the producer slow)
+			in.path.inSendHook = true
+			in.call(fr, instr.Pos(), hook, nil)
+			in.path.inSendHook = false
+		}
 	case *ssa.Store:
 		addr, ok := in.realPtr(fr.get(instr.Addr)).(*value)
 		if !ok {
